@@ -751,3 +751,80 @@ impl gmsol_model::PerpMarketMut<{ constants::MARKET_DECIMALS }> for RevertibleMa
         })
     }
 }
+
+/// Verification hooks (add-only, compiled only with `--cfg gmsol_verif`).
+#[cfg(gmsol_verif)]
+pub mod verif {
+    use anchor_lang::prelude::*;
+    use gmsol_model::{ClockKind, PoolKind};
+
+    use crate::{
+        events::EventEmitter,
+        states::{market::Pool, Market, OtherState},
+    };
+
+    use super::RevertibleMarket;
+
+    /// Wrapper of [`RevertibleMarket::new`] without virtual inventories.
+    pub fn begin<'a, 'info>(
+        market: &'a AccountLoader<'info, Market>,
+        event_authority: &'a AccountInfo<'info>,
+        bump: u8,
+    ) -> Result<RevertibleMarket<'a, 'info>> {
+        RevertibleMarket::new(market, None, EventEmitter::new(event_authority, bump))
+    }
+
+    /// Wrapper of `RevertibleMarket::pool`.
+    pub fn pool(market: &RevertibleMarket<'_, '_>, kind: PoolKind) -> gmsol_model::Result<Pool> {
+        market.pool(kind).copied()
+    }
+
+    /// Wrapper of `RevertibleMarket::pool_mut`.
+    pub fn pool_mut<'b>(
+        market: &'b mut RevertibleMarket<'_, '_>,
+        kind: PoolKind,
+    ) -> gmsol_model::Result<&'b mut Pool> {
+        market.pool_mut(kind)
+    }
+
+    /// Read a clock through `RevertibleMarket::clocks`.
+    pub fn clock(market: &RevertibleMarket<'_, '_>, kind: ClockKind) -> Option<i64> {
+        market.clocks().get(kind).copied()
+    }
+
+    /// Get a clock mutably through `RevertibleMarket::clocks_mut`.
+    pub fn clock_mut<'b>(
+        market: &'b mut RevertibleMarket<'_, '_>,
+        kind: ClockKind,
+    ) -> Option<&'b mut i64> {
+        market.clocks_mut().get_mut(kind)
+    }
+
+    /// Wrapper of `RevertibleMarket::other`.
+    pub fn other(market: &RevertibleMarket<'_, '_>) -> OtherState {
+        *market.other()
+    }
+
+    /// Wrapper of `RevertibleMarket::record_transferred_in`.
+    pub fn record_transferred_in(
+        market: &mut RevertibleMarket<'_, '_>,
+        is_long_token: bool,
+        amount: u64,
+    ) -> Result<()> {
+        market.record_transferred_in(is_long_token, amount)
+    }
+
+    /// Wrapper of `RevertibleMarket::record_transferred_out`.
+    pub fn record_transferred_out(
+        market: &mut RevertibleMarket<'_, '_>,
+        is_long_token: bool,
+        amount: u64,
+    ) -> Result<()> {
+        market.record_transferred_out(is_long_token, amount)
+    }
+
+    /// Wrapper of [`RevertibleMarket::next_trade_id`].
+    pub fn next_trade_id(market: &mut RevertibleMarket<'_, '_>) -> Result<u64> {
+        market.next_trade_id()
+    }
+}
